@@ -45,6 +45,17 @@ def two_bodies(n, opt, z2=0.33):
             ["body name=b1 pos=0.05,0,%g" % z2, "joint body=b1 type=0"] + spheres("b1", n))
 
 
+def LIMITS(n):
+    out = ["option timestep=0.005"]
+    par = "world"
+    for k in range(n):
+        out += ["body name=h%d parent=%s pos=0,0,%g" % (k, par, 1.0 if k == 0 else -0.3),
+                "joint body=h%d name=hj%d type=3 axis=0,1,0 limited=1 range=0.5,1" % (k, k),
+                "geom body=h%d type=3 size=0.02,0.1,0 fromto=0,0,0,0,0,-0.3 contype=0 conaffinity=0" % k]
+        par = "h%d" % k
+    return out
+
+
 POOL = {
     # 2 bodies x 4 geoms, midphase off: all-to-all candidate pairs go through pushPairArena
     "multi4": dict(desc=two_bodies(4, "disableflags=16384"), percon=4),
@@ -91,6 +102,10 @@ POOL = {
     # the smallest dual + sparse case: one sphere on the plane (nefc = 4, nA = 16: a 64-byte window for efc_AR_colind)
     "pgs1": dict(desc=["option timestep=0.005 solver=0 jacobian=1", "geom type=0 size=5,5,0.1",
                        "body name=p0 pos=0,0,0.095", "joint body=p0 type=0", "geom body=p0 type=2 size=0.1,0,0"], percon=4),
+    # odd numbers of constraint rows (1 and 3 violated hinge limits, no contact): after efc_state (nefc ints) the next
+    # mjtNum array needs 4 bytes of alignment padding, so the last efc array ends at 4 mod 8
+    "lim1": dict(desc=LIMITS(1), percon=4),
+    "lim3": dict(desc=LIMITS(3), percon=4),
     # explicit contact pairs only
     "pairs": dict(desc=["option timestep=0.005", "geom type=0 size=5,5,0.1",
                         "body name=b0 pos=0,0,0.2", "joint body=b0 type=0",
@@ -133,11 +148,12 @@ def project(r, ref, percon, consz):
     if "died" in r:
         return [{"kind": "crash"}]
     if r["make"] != "ok":
-        return [{"kind": "error", "err": r["make"]}] if r["make"] != "noarena" else [{"kind": "error", "err": "noarena"}]
+        return [{"kind": "error", "err": r["make"], "apart": True}]
     evs = []
     for k, st in enumerate(r["steps"]):
         if st["err"] != "none":
-            evs.append({"kind": "error", "err": st["err"]})
+            # also at the moment an error is raised the two regions must not have met
+            evs.append({"kind": "error", "err": st["err"], "apart": st["parena"] + st["pstack"] <= r["N"]})
             if r["reset"] is not None:
                 ok = r["reset"] == ("ok", 0, 0)
                 evs.append({"kind": "reset" if ok else "reset-failed"})
@@ -190,7 +206,14 @@ def raw_key(r):
     return (r["make"], tuple(tuple(st[k] for k in FIELDS if k != "pbase") for st in r["steps"]), r["reset"])
 
 
-def sweep_refined(exe, name, desc, sizes, budget):
+def cls_key(r):
+    """coarse class of a run: which sites failed"""
+    if "died" in r:
+        return ("died",)
+    return (r["make"], tuple((st["err"], st["wcon"] > 0, st["wcns"] > 0, st["ncon"] > 0, st["nefc"] > 0) for st in r["steps"]))
+
+
+def sweep_refined(exe, name, desc, sizes, budget, halfwin=8):
     """coarse sweep, then bisection between every pair of neighbouring sizes whose runs differ, until the two
     differ by 4 bytes (all arena requests are multiples of 4), so that no window of sizes with its own outcome can
     hide between two grid points that straddle a boundary.  `budget` bounds the number of extra runs."""
@@ -214,6 +237,18 @@ def sweep_refined(exe, name, desc, sizes, budget):
         for r in sweep(exe, name, desc, mids):
             runs[r["N"]] = r
         extra += len(mids)
+    # every memory size (byte granular: alignment padding depends on N mod 8) around each size where the class of the
+    # outcome changes, i.e. where an allocation site starts to fit
+    ns = sorted(runs)
+    fine = set()
+    for a, b in zip(ns, ns[1:]):
+        if cls_key(runs[a]) != cls_key(runs[b]):
+            fine.update(x for x in range(max(0, b - halfwin), b + halfwin + 1) if x not in runs)
+    fine = sorted(fine)[:4 * budget]
+    if fine:
+        for r in sweep(exe, name, desc, fine):
+            runs[r["N"]] = r
+        extra += len(fine)
     ns = sorted(runs)
     gaps = [b - a for a, b in zip(ns, ns[1:]) if raw_key(runs[a]) != raw_key(runs[b])]
     return [runs[n] for n in ns], (extra, len(gaps), max(gaps) if gaps else 0)
@@ -233,7 +268,7 @@ def ev_sig(e):
         return "done:con=%s,wcon=%d,wcns=%d,efc=%s,incl=%s,isl=%s,bal=%d,apart=%d" % (
             e["con"], e["wcon"], e["wcns"], e["efc"], e["incl"], e["isl"], e["bal"], e["apart"])
     if e["kind"] == "error":
-        return "error:" + e["err"]
+        return "error:" + e["err"] + ("" if e.get("apart", True) else ",apart=0")
     return e["kind"]
 
 
@@ -246,7 +281,7 @@ def run(ctx):
                "mjModel.narena is set to N before mj_makeData (the compiled form of <size memory=N/>)",
                "after a catchable error the run calls mj_resetData and must find an empty stack and arena")
     cfgp = lambda n: os.path.join(TLA, n)
-    models = sorted(POOL) if not ctx.quick else ["boxes", "boxmid", "fixed", "many", "multi4", "pgs1", "single", "stacks", "stacksns"]
+    models = sorted(POOL) if not ctx.quick else ["boxes", "boxmid", "fixed", "lim1", "lim3", "many", "multi4", "single", "stacks", "stacksns"]
     J = {}
     with cf.ThreadPoolExecutor(16) as ex:
         J["mc"] = ex.submit(tlc.run, SPEC, cfgp("ArenaStep_MCq.cfg" if ctx.quick else "ArenaStep_MC.cfg"), coverage=True, timeout=1800, workers=4)
@@ -261,15 +296,16 @@ def run(ctx):
             ref = sweep(exes["plain"], mn, POOL[mn]["desc"], [8 << 20])[0]
             if "died" in ref or ref["make"] != "ok" or len(ref["steps"]) != NSTEPS or any(s["err"] != "none" or s["wcon"] or s["wcns"] for s in ref["steps"]):
                 raise Machinery("reference run of %s is not clean: %r" % (mn, ref))
-            if ref["steps"][0]["ncon"] == 0:
-                raise Machinery("pool model %s produces no contact" % mn)
+            if ref["steps"][0]["nefc"] == 0:
+                raise Machinery("pool model %s produces no constraint" % mn)
             refs[mn] = ref
         futs = {}
         for mn in models:
             for variant in ("plain", "asan"):
                 sz = sizes_for(refs[mn]["maxuse"], ctx.quick, variant)
                 futs[(mn, variant)] = ex.submit(sweep_refined, exes[variant], mn, POOL[mn]["desc"], sz,
-                                                (160 if variant == "plain" else 48) if ctx.quick else (1500 if variant == "plain" else 400))
+                                                (160 if variant == "plain" else 48) if ctx.quick else (1500 if variant == "plain" else 400),
+                                                (8 if variant == "plain" else 0) if ctx.quick else 16)
         nrefine = nbound = maxgap = 0
         for k, f in futs.items():
             runs[k], (nx, nb, mg) = f.result()
@@ -321,6 +357,7 @@ def run(ctx):
     done_ok = {"kind": "done", "con": "full", "wcon": False, "wcns": False, "efc": "match", "incl": "all", "isl": "pos", "bal": True, "apart": True}
     controls = [
         ("a crash has no explaining action", [{"kind": "crash"}]),
+        ("an error raised with parena + pstack > narena is rejected", [{"kind": "error", "err": "stackoverflow", "apart": False}, {"kind": "reset"}]),
         ("a truncated contact list without CONTACTFULL is rejected", [dict(done_ok, con="part")]),
         ("a step returning with a non-empty stack is rejected", [dict(done_ok, bal=False)]),
         ("contacts keeping efc addresses while nefc = 0 are rejected", [dict(done_ok, wcns=True, efc="zero", incl="stale", isl="zero")]),
@@ -380,7 +417,7 @@ def run(ctx):
     ctx.cov["exhaustive"] = False
     ctx.cov["rule"] = ("design: every capacity x demand profile (quick: 0..24 x 48, thorough: 0..32 x 192; 1 step) and 0..24 x 3 profiles (3 steps, with the "
                        "liveness property that a step returns); binding: %d runs = %d pool models x memory sizes 0..maxuse+1500 "
-                       "(stride %s bytes, every 4-16 bytes near zero and near the full size, plus %d bisection runs that narrow "
+                       "(stride %s bytes, every 4-16 bytes near zero and near the full size, plus %d bisection / byte-granular runs that narrow "
                        "every change of outcome between neighbouring sizes: %d boundaries, widest remaining gap %d bytes) x {plain, asan}, 3 steps each in a "
                        "forked child; %d distinct observable event sequences validated by ArenaStepTrace; non-trivial = the run "
                        "hit a warning, an error or died; distinct = (model, build, N)" % (
